@@ -170,6 +170,10 @@ func (u *Universe) verifyFunc(fi *FuncInfo) (obls []*Obl, rep FuncReport) {
 		return nil, rep
 	}
 	rep.Paths = nret
+	if err := e.detObligations(con, outs, name); err != nil {
+		rep.Error = err.Error()
+		return nil, rep
+	}
 	// finalise
 	decls := append([]string(nil), e.decls...)
 	for _, o := range e.obls {
